@@ -5,6 +5,7 @@
 -/
 import TFV.Model.Estim
 import TFV.Lemmas.Estim
+import TFV.Properties.Tree
 
 namespace TFV.Estim
 
@@ -48,5 +49,21 @@ theorem C18_withBias (row : List Rat) :
   simp [withBias]
 
 theorem C18_budget (nIter popSize : Nat) : budget nIter popSize = nIter * popSize := rfl
+
+end TFV.Estim
+
+namespace TFV.Estim
+open TFV.Tree
+
+/-- C18 (GP estimators): `predict(X)` evaluates the stored tree with the columns of X bound to its
+    variables — calling the tree on the whole batch yields, for every sample k, the value of the
+    expression on that sample alone -/
+theorem C18_gp_predict {ι V : Type} (interp : ι → Nat → List V → V) (t : RT) :
+    evalStack (fun s (args : List (ι → V)) => fun k => interp k s (args.map (· k))) (flat t) =
+      some (fun k => evalRT (interp k) t) := by
+  rw [C09_eval]
+  congr 1
+  funext k
+  exact C09_batch interp t k
 
 end TFV.Estim
